@@ -1,6 +1,6 @@
 """C04 — packets are read from a byte stream exactly at APDU boundaries."""
 import rules_c16
-from mirlite import callee, callee_res, ty_str, op_place
+from mirlite import switch_target, callee, callee_res, ty_str, op_place
 from expr import show, walk, strip_ref
 from discharge import make_prover, VEx, INDEX, Lin, len_of, LEN_CALLS
 
@@ -169,7 +169,7 @@ def rest(ctx, chk, zvt, crates):
                         srcs = pr.tr.sources(v.rv["p"], through_calls=events.through) if v.kind == "rv" else set()
                         if any(s_[0] == "call" and s_[1] == READ_EXACT and s_[2] == rb for s_ in srcs) and \
                                 not any(s_[0] == "call" and s_[1] == READ_EXACT and s_[2] != rb for s_ in srcs):
-                            br = (i, dict((v_, tb) for v_, tb in t["targets"]))
+                            br = (i, {0: switch_target(t, 0), 1: switch_target(t, 1)})
                             break
             if not chk.require(br is not None, "C04-c/read-checked", "read #%d" % (k + 1),
                                "the outcome of the read is not examined", "`?`", rt.get("sp")):
